@@ -229,6 +229,10 @@ def run(res, ctx):
 
         carrier_sels = [(k, i, e) for (k, i, e) in sels if (i | e) <= known_ids and not (i & e) and (i or e)]
         carrier_sels = carrier_sels if thorough else carrier_sels[:7]
+        # ids bandit does not (or no longer) register, alone in the include list: whatever the tool does with them, it does not run tests outside the selection
+        # (seeded change C05-m13 dropped "retired" ids from the lists; the then-empty include list meant: run everything)
+        carrier_sels += [("only_unregistered", {"B322"}, set()), ("only_unregistered2", {"B309", "B320"}, set()), ("only_unknown", {"B999"}, set()),
+                         ("unregistered_and_one", {"B322", "B101"}, set())]
         carrier_sels += [("only_file_level", {"B613"}, set()), ("file_level_and_one", {"B613", "B101"}, set()), ("two_part_include", {"B101", "B602"}, set()), ("three_part_include", {"B101", "B301", "B404", "B605"}, {"B602"}), ("two_part_skip", set(), {"B101", "B404", "B603"})]
         for kind, inc, exc in carrier_sels:
             S = spec_filter(inc, exc, plug, bl, builtin)
@@ -243,8 +247,8 @@ def run(res, ctx):
                 got, r = cli_findings(argv)
                 res.case(("carrier", label, tuple(li), tuple(le)), bool(expect))
                 res.count("carrier:" + label)
-                if got is None and not S:
-                    continue        # nothing left to run: rejected ("No tests would be run"), C03/C13's business
+                if got is None and (not S or not expect):
+                    continue        # nothing (registered) left to run: rejected ("No tests would be run" / unknown id), C03/C13's business
                 if got != expect:
                     # the first-match masking of the blacklist (known finding) can add a finding under a selection; it is judged above, through the API
                     extra = [f for f in (got or []) if f not in (expect or [])]
@@ -272,6 +276,17 @@ def run(res, ctx):
                                                                            "all_bl": {"include": ["B001", "B101"]}, "bl_names": {"include": ["pickle", "import_telnetlib"]}}}).encode())
         r0 = C.run_cli(["-f", "json", "-q", prog])
         allf = sorted((x["test_id"], x["line_number"]) for x in _json.loads(r0["out"])["results"])
+        # a profile naming one test in BOTH lists (by id twice, or by name and by id) is a contradiction: rejected like `-t X -s X` (seeded change C05-m14 resolved the
+        # overlap silently in favour of the include list)
+        cfgo = scratch.fresh("overlap.yaml", _yaml.safe_dump({"profiles": {"ids": {"include": ["B101", "B102"], "exclude": ["B101"]},
+                                                                           "name_and_id": {"include": ["assert_used", "exec_used"], "exclude": ["B101"]},
+                                                                           "bl": {"include": ["B301", "B403"], "exclude": ["B403"]}}}).encode())
+        for name in ("ids", "name_and_id", "bl"):
+            r = C.run_cli(["-c", cfgo, "-p", name, "-f", "json", "-q", prog])
+            res.case(("profile-overlap", name), True)
+            res.count("named-profile-overlap")
+            if r["exc"] is not None or r["exit"] != 2:
+                res.violation("a profile that includes and excludes the same test is not rejected with exit status 2", {"profile": name, "exit": r["exit"], "exc": r["exc"], "stdout_head": r["out"][:200]})
         wants = {"picked": lambda i: i in ("B403", "B301", "B102"), "no_assert": lambda i: i != "B101", "all_bl": lambda i: i in blids or i == "B101",
                  "bl_names": lambda i: i in ("B301", "B401")}
         for name, keep in wants.items():
